@@ -31,10 +31,14 @@ CHECKS = {
         text="Decides necessary conditions of 'incremental == clean' that are visible in code shape: every Metadata field "
              "read by the work a cache hit skips (analyzer, emitter) is folded into the store's global key (or is in a "
              "reasoned exemption table), structs folded whole serialise every field, the manifest is saved only after "
-             "all outputs are written, and only clean pass-1 results are captured. Exhaustive over all 21k functions of "
-             "the consumer crates. It does not decide output equality over edit histories.",
+             "all outputs are written, and only clean pass-1 results are captured (exhaustive over all 21k functions of "
+             "the consumer crates); plus the miss-set construction: one closure step over saved dependents with no later seed, a "
+             "transitively closed dependents map, removed/renamed files seeding the miss set, every kind of reported diagnostic stored "
+             "for replay, no fragment kept for a file whose pass2 was skipped, gc keeping every referenced blob kind. Three of these "
+             "rules were written after an independent sub-agent found real defects by running sequences (fixed: F12, F13, F14). "
+             "It does not decide output equality over edit histories.",
         design_ref="DESIGN.md section 3 C04, section 8",
-        technique="field-read coverage (MIR places) vs. provenance of the cache key; CFG reachability; operand provenance",
+        technique="field-read coverage (MIR places) vs. provenance of the cache key; CFG reachability and path enumeration with branch facts; operand provenance; enum-arm coverage",
     ),
     "C05": dict(
         category="proof",
